@@ -55,6 +55,9 @@ def scenarios(tier):
         # discard_freelist against an allocation from the list
         sc.append(("discard_vs_pop_" + kind, c, SETUP_TWOSEG,
                    [[{"k": "discard"}], [AB(8), FILL(T1), VER(T1)]], {"live": True}))
+        # the same races with sizes that are not multiples of 8 (padding in front of nodes and typed values)
+        sc.append(("pop_vs_insert_odd_" + kind, c, [AB(61), FILL(1), AB(77), FILL(2), AB(61), FILL(3), DROP(1)],
+                   [[AB(13), FILL(T0), VER(T0), AT(4, 4), FILL(T0 + 1)], [DROP(2), AA(8, 8, 3), FILL(T1)]], {"live": True}))
         # discard_freelist against a release that becomes the new head between the discarder's mark and its unlink
         sc.append(("discard_vs_insert_" + kind, c, SETUP_TWOSEG,
                    [[{"k": "discard"}], [DROP(2), AB(8), FILL(T1), VER(T1)]], {"live": True}))
